@@ -638,7 +638,7 @@ def run_property(ctx, spec):
         if r.returncode != 0:
             raise ToolError(f"witness replay of {f['id']} failed: {r.stdout[-500:]}")
         for ln, exp in tlc_trace_one(w["module"], outp, 600):
-            mm = {"event": json.loads(open(outp).read().splitlines()[ln - 1]), "expected": exp, "stage": "witness",
+            mm = {"event": json.loads(open(outp).read().splitlines()[ln - 1]), "expected": exp, "stage": "witness", "module": w["module"],
                   "tags": sorted(exp.get("bad", [])) if isinstance(exp, dict) else []}
             if sig_match(f["signature"], mm):
                 known.setdefault(f["id"], []).append(mm)
@@ -654,7 +654,7 @@ def run_property(ctx, spec):
         os.makedirs(rdir, exist_ok=True)
         for i, mm in enumerate(viol[:50]):
             p = os.path.join(rdir, f"{i}.json")
-            json.dump({"property": ctx.id, "stage": mm["stage"], "module": next(s["module"] for s in ctx.stages if s["name"] == mm["stage"]),
+            json.dump({"property": ctx.id, "stage": mm["stage"], "module": mm.get("module") or next(s["module"] for s in ctx.stages if s["name"] == mm["stage"]),
                        "tags": mm["tags"], "event": mm["event"], "expected_by_spec": mm["expected"]}, open(p, "w"), indent=1)
             paths.append(p)
     write_evidence(ctx, spec, len(viol), known)
